@@ -241,3 +241,116 @@ def key_accidentals(key):
 def semis(a, b):
     """semitones from name a up to name b, 0..11"""
     return (pc(b) - pc(a)) % 12
+
+
+# ------------------------------------------------------------------ key-level predicates (concrete evaluation)
+
+@primitive
+def step_pattern(names):
+    """semitone steps between consecutive names, closing the octave"""
+    p = [(base(n[0]) + n[1:].count("#") - n[1:].count("b")) % 12 for n in names]
+    return [(p[(i + 1) % len(p)] - p[i]) % 12 for i in range(len(p))]
+
+
+@primitive
+def letters_of(names):
+    return "".join(n[0] for n in names)
+
+
+@primitive
+def consecutive_letters(names):
+    """every name's letter is the next letter after the previous one's"""
+    return all(names[i + 1][0] == lup(names[i][0], 1) for i in range(len(names) - 1))
+
+
+@primitive
+def altered(names):
+    """the names that carry an accidental, as a sorted list"""
+    return sorted(n for n in names if len(n) > 1)
+
+
+@primitive
+def sorted_list(xs):
+    return sorted(xs)
+
+
+@primitive
+def key_display_name(key):
+    sym = "" if len(key) == 1 else ("sharp " if key[1] == "#" else "flat ")
+    return "%s %s%s" % (key[0].upper(), sym, "minor" if key[0].islower() else "major")
+
+
+@primitive
+def tonic_of(key):
+    return key[0].upper() + key[1:]
+
+
+@primitive
+def list_reverse_of(a, b):
+    return list(a) == list(reversed(b))
+
+
+@primitive
+def list_same(a, b):
+    return list(a) == list(b)
+
+
+# ------------------------------------------------------------------ interval shorthand / interval names
+
+def digit(c):
+    """value of a digit character '1'..'7' (0 for anything else)"""
+    return (1 if c == "1" else 2 if c == "2" else 3 if c == "3" else 4 if c == "4"
+            else 5 if c == "5" else 6 if c == "6" else 7 if c == "7" else 0)
+
+
+def digit_char(d):
+    return ("1" if d == 1 else "2" if d == 2 else "3" if d == 3 else "4" if d == 4
+            else "5" if d == 5 else "6" if d == 6 else "7")
+
+
+def maj_semis(d):
+    """semitones of the major / perfect interval with number d (1 = unison .. 7 = seventh)"""
+    return (0 if d == 1 else 2 if d == 2 else 4 if d == 3 else 5 if d == 4
+            else 7 if d == 5 else 9 if d == 6 else 11)
+
+
+def sh_acc(sh):
+    """sharps minus flats in front of the degree digit of an interval shorthand"""
+    return cnt_sharp(sh, 0, len(sh) - 1) - cnt_flat(sh, 0, len(sh) - 1)
+
+
+def is_interval_shorthand(sh):
+    """any string of '#'/'b' followed by one digit 1..7"""
+    return len(sh) >= 1 and cnt_other(sh, 0, len(sh) - 1) == 0 and digit(sh[len(sh) - 1]) >= 1
+
+
+def ctor_net(letter_to, semis_up, name_from):
+    """accidental count the interval constructors give the target letter (their exact-spelling clause)"""
+    return fold6(semis_up - (base(letter_to) - pc(name_from)) % 12)
+
+
+def number_name(n):
+    """n = letters spanned, 0..6"""
+    return ("unison" if n == 0 else "second" if n == 1 else "third" if n == 2 else "fourth" if n == 3
+            else "fifth" if n == 4 else "sixth" if n == 5 else "seventh")
+
+
+def quality_name(offset, n):
+    """quality from the semitone offset against the major/perfect size"""
+    return (("perfect" if (n == 3 or n == 4) else "major") if offset == 0 else "minor" if offset == -1
+            else "diminished" if offset < -1 else "augmented")
+
+
+def letters_spanned(a, b):
+    return (lidx(b[0]) - lidx(a[0])) % 7
+
+
+def asc_distance(a, b):
+    """ascending distance from a to b counted along the letters they span"""
+    return natdist(a[0], b[0]) + net(b) - net(a)
+
+
+def sh_is(s, acc, d):
+    """s is acc sharps (acc >= 0) or -acc flats followed by the digit of d"""
+    return (len(s) == abs(acc) + 1 and s[len(s) - 1] == digit_char(d)
+            and (cnt_sharp(s, 0, len(s) - 1) == acc if acc >= 0 else cnt_flat(s, 0, len(s) - 1) == -acc))
